@@ -314,6 +314,54 @@ func WordShapes() []*big.Int {
 	return dedupe(out)
 }
 
+// LimitPrefixes returns digit strings that follow the decimal digits of the binary limits 2^64, 2^128, 2^192, 2^256
+// (a multi-word accumulator overflows when scaled past limit/10^j, whatever j) for the first p digits and then either
+// stop (a value just below the limit) or carry +1 in the last place (just above it), for a geometric ladder of p: the
+// windows that a slightly wrong guard constant opens lie at relative distance 10^-p above or below the limit.
+func LimitPrefixes() []string {
+	var out []string
+	seen := map[string]bool{}
+	for _, k := range []uint{64, 128, 192, 256} {
+		d := new(big.Int).Lsh(big.NewInt(1), k).String()
+		for _, p := range []int{3, 4, 5, 6, 7, 8, 10, 12, 14, 16, 18, 19, 20, 21, 24, 28, 32, 34} {
+			if p > len(d) {
+				continue
+			}
+			below := d[:p]
+			above := new(big.Int).Add(bi(below), big.NewInt(1)).String()
+			for _, s := range []string{below, above} {
+				if !seen[s] {
+					seen[s] = true
+					out = append(out, s)
+				}
+			}
+		}
+	}
+	return out
+}
+
+// LimitShapes are the LimitPrefixes that fit a coefficient.
+func LimitShapes() []*big.Int {
+	var out []*big.Int
+	for _, s := range LimitPrefixes() {
+		if z := bi(s); z.Cmp(ref.Cmax) <= 0 {
+			out = append(out, z)
+		}
+	}
+	return dedupe(out)
+}
+
+// CmaxPrefixes: floor(Cmax/10^j) and the next integer, j = 1..34: the short coefficients that scale (x10^j) to just
+// below / just above the largest coefficient, i.e. the edge of every "does it still fit" loop.
+func CmaxPrefixes() []*big.Int {
+	var out []*big.Int
+	for j := 1; j <= 34; j++ {
+		c := new(big.Int).Quo(ref.Cmax, ref.Pow10(j))
+		out = append(out, c, new(big.Int).Add(c, big.NewInt(1)))
+	}
+	return dedupe(out)
+}
+
 var quickLens = []int{1, 2, 3, 4, 5, 8, 9, 10, 16, 17, 18, 19, 20, 21, 33, 34, 35}
 
 // Shapes is the coefficient alphabet K.
@@ -324,6 +372,7 @@ func Shapes(thorough bool) []*big.Int {
 			out = append(out, ShapesLen(L)...)
 		}
 		out = append(out, WordShapes()...)
+		out = append(out, CmaxPrefixes()...)
 	} else {
 		inQuick := map[int]bool{}
 		for _, L := range quickLens {
